@@ -34,7 +34,8 @@ TYPES = {
     'presource1': ('presource', {'cap': 1}), 'presource2': ('presource', {'cap': 2}),
     'preempt1': ('preempt', {'cap': 1}), 'preempt2': ('preempt', {'cap': 2}),
 }
-FILTERS = {'any': lambda item: True, 'eq1': lambda item: item == 1, 'eq2': lambda item: item == 2}
+FILTERS = {'any': lambda item: True, 'eq1': lambda item: item == 1, 'eq2': lambda item: item == 2,
+           'isint': lambda item: type(item) is int}
 
 
 # ---- reference models ---------------------------------------------------------------------------------
@@ -83,6 +84,11 @@ class Model:
                     if self.key(r) < self.key(worst):
                         self.users.remove(worst)
                         self.preempted.append((worst['id'], r['id']))
+                        if worst.get('hold') == 2:
+                            # the evicted process asks again from its interrupt handler
+                            again = dict(id=100 + worst['id'], time=self.t, prio=worst['prio'], preempt=True, hold=1)
+                            self.puts.append(again)
+                            self.puts.sort(key=self.key)
                 ok = len(self.users) < self.cap
                 if ok:
                     self.users.append(r)
@@ -96,9 +102,10 @@ class Model:
         k = self.kind
         if k == 'fstore':
             for r in list(self.gets):
-                match = [x for x in self.items if FILTERS[r['flt']](x)]
+                match = [i for i, x in enumerate(self.items) if FILTERS[r['flt']](x)]
                 if match:
-                    self.items.remove(match[0]); self.gets.remove(r); self.got[r['id']] = match[0]
+                    item = self.items.pop(match[0])       # the very object that was accepted, not an equal one
+                    self.gets.remove(r); self.got[r['id']] = item
                     self.granted.append(r['id'])
                     self.pending_triggers.append('put')
             return
@@ -171,7 +178,8 @@ class Model:
         if k in ('store', 'pstore', 'fstore'):
             return (k, tuple(self.items), tuple(r['item'] for r in self.puts), tuple(r.get('flt') for r in self.gets))
         age = {}
-        rel = lambda r: (r['prio'], r['preempt'], r['hold'])
+        # (a request issued from an interrupt handler is a different thing for the implementation: keep it apart)
+        rel = lambda r: (r['prio'], r['preempt'], r['hold'], r['id'] >= 100)
         order = sorted(self.users + self.puts, key=lambda r: (r['time'], r['id']))
         rank = {r['id']: i for i, r in enumerate(order)}
         return (k, tuple(sorted((rank[r['id']],) + rel(r) for r in self.users)), tuple((rank[r['id']],) + rel(r) for r in self.puts))
@@ -182,8 +190,8 @@ class Model:
             return {'level': self.level, 'puts': [r['id'] for r in self.puts], 'gets': [r['id'] for r in self.gets],
                     'granted': sorted(self.granted)}
         if k in ('store', 'pstore', 'fstore'):
-            return {'items': list(self.items), 'puts': [r['id'] for r in self.puts], 'gets': [r['id'] for r in self.gets],
-                    'granted': sorted(self.granted), 'got': dict(self.got)}
+            return {'items': [repr(x) for x in self.items], 'puts': [r['id'] for r in self.puts], 'gets': [r['id'] for r in self.gets],
+                    'granted': sorted(self.granted), 'got': {k: repr(v) for k, v in self.got.items()}}
         return {'users': sorted(r['id'] for r in self.users), 'queue': [r['id'] for r in self.puts],
                 'granted': sorted(self.granted), 'preempted': sorted(self.preempted)}
 
@@ -198,13 +206,13 @@ class Model:
         elif k == 'pstore':
             ops = [('put', 2), ('put', 1), ('put', 3), ('get',)]
         elif k == 'fstore':
-            ops = [('put', 1), ('put', 2), ('get', 'any'), ('get', 'eq1'), ('get', 'eq2')]
+            ops = [('put', 1), ('put', 1.0), ('put', 2), ('get', 'any'), ('get', 'eq1'), ('get', 'eq2'), ('get', 'isint')]
         elif k == 'resource':
             ops = [('request', 0, True, 1), ('request', 0, True, 0)]
         elif k == 'presource':
             ops = [('request', p, True, 1) for p in (0, 1, 2)] + [('request', 1, True, 0)]
         elif k == 'preempt':
-            ops = [('request', p, pre, 1) for p in (0, 1, 2) for pre in (True, False)]
+            ops = [('request', p, pre, 1) for p in (0, 1, 2) for pre in (True, False)] + [('request', 1, True, 2), ('request', 2, True, 2)]
         for r in self.puts + self.gets:
             ops.append(('cancel', r['id']))
         for r in self.users:
@@ -270,6 +278,21 @@ def run_real(kind, params, steps):
                 preempted.append((i, ids_of_proc.get(cause.by), cause.usage_since, cause.resource is res))
             else:
                 errors.append('request %d interrupted with %r' % (i, cause))
+            if hold == 2:
+                # ask again from the interrupt handler
+                j = 100 + i
+                req2 = res.request(priority=prio)
+                evs[j] = req2
+                release[j] = env.event()
+                ids_of_proc[req2.proc] = ids_of_proc.get(req2.proc, i)
+                try:
+                    with req2:
+                        yield req2
+                        grants.append(j)
+                        yield release[j]
+                except Interrupt as irq2:
+                    if isinstance(irq2.cause, Preempted):
+                        preempted.append((j, ids_of_proc.get(irq2.cause.by), irq2.cause.usage_since, irq2.cause.resource is res))
 
     ids_of_proc = {}
 
@@ -313,8 +336,10 @@ def run_real(kind, params, steps):
         if kind == 'container':
             s = {'level': res.level, 'puts': [inv.get(e) for e in res.put_queue], 'gets': [inv.get(e) for e in res.get_queue]}
         elif kind in ('store', 'pstore', 'fstore'):
-            s = {'items': list(res.items), 'puts': [inv.get(e) for e in res.put_queue], 'gets': [inv.get(e) for e in res.get_queue],
-                 'got': {i: got[i] for i in got if i in evs and not hasattr(evs[i], 'item')}}
+            s = {'items': [repr(x) for x in res.items], 'raw_items': list(res.items),
+                 'puts': [inv.get(e) for e in res.put_queue], 'gets': [inv.get(e) for e in res.get_queue],
+                 'got': {i: repr(got[i]) for i in got if i in evs and not hasattr(evs[i], 'item')},
+                 'raw_got': {i: got[i] for i in got if i in evs and not hasattr(evs[i], 'item')}}
         else:
             s = {'users': sorted(inv.get(e) for e in res.users), 'queue': [inv.get(e) for e in res.queue],
                  'preempted': sorted((a, b) for a, b, _, _ in preempted), 'count': res.count,
@@ -391,20 +416,20 @@ def conservation(kind, params, snap, steps):
                     msgs.append('head %s of %r is still pending although it is grantable (level %r)' % (name, amt, snap['level']))
     elif kind in ('store', 'pstore', 'fstore'):
         put_items = [ops[i][1] for i in snap['granted'] if ops[i][0] == 'put']
-        got_items = list(snap['got'].values())
-        rest = collections.Counter(put_items) - collections.Counter(got_items)
-        if rest != collections.Counter(snap['items']) or (collections.Counter(got_items) - collections.Counter(put_items)):
+        got_items = list(snap['raw_got'].values())
+        rest = collections.Counter(map(repr, put_items)) - collections.Counter(map(repr, got_items))
+        if rest != collections.Counter(snap['items']) or (collections.Counter(map(repr, got_items)) - collections.Counter(map(repr, put_items))):
             msgs.append('items %r + handed out %r do not add up to the accepted puts %r' % (snap['items'], got_items, put_items))
         if kind == 'fstore':
             for g in snap['gets']:
-                if g is not None and not cancelled and any(FILTERS[ops[g][1]](x) for x in snap['items']):
+                if g is not None and not cancelled and any(FILTERS[ops[g][1]](x) for x in snap['raw_items']):
                     msgs.append('get %r (filter %s) is pending although %r contains a matching item' % (g, ops[g][1], snap['items']))
-            for g, item in snap['got'].items():
+            for g, item in snap['raw_got'].items():
                 if not FILTERS[ops[g][1]](item):
                     msgs.append('get %r with filter %s received %r' % (g, ops[g][1], item))
         elif snap['gets'] and snap['items'] and not cancelled:
             msgs.append('a get is pending although the store holds %r' % (snap['items'],))
-        if kind == 'pstore' and snap['items'] != sorted(snap['items']):
+        if kind == 'pstore' and snap['raw_items'] != sorted(snap['raw_items']):
             msgs.append('priority store items are not sorted: %r' % (snap['items'],))
     return msgs
 
